@@ -552,6 +552,53 @@ def position_runs(chk, n):
 
 
 
+
+def leading_bytes_positions(chk):
+    """ deterministic: logs that begin with a byte order mark (or other
+    non-text bytes) before a timestamped first line, since dates before /
+    between / after the timestamps, destructive and not: the file must be
+    left at 0, at EOF or just after a line feed """
+    import datetime
+    from searchkit.constraints import (SearchConstraintSearchSince,
+                                       TimestampMatcherBase)
+
+    class TS(TimestampMatcherBase):
+        @property
+        def patterns(self):
+            return [r'^(?P<year>\d{4})-(?P<month>\d{2})-(?P<day>\d{2}) '
+                    r'(?P<hours>\d{2}):(?P<minutes>\d{2}):(?P<seconds>\d{2})']
+
+    class NamedBytesIO(io.BytesIO):
+        name = 'c11-leading-bytes'
+
+    body = (b'2022-01-01 00:00:10 first\n2022-01-01 00:00:20 second\n'
+            b'2022-01-01 00:00:30 third\n')
+    for head in (b'\xef\xbb\xbf', b'\xff\xfe', b'\x00', b''):
+        for c in (head + body, head + body[:-1], head + body[:26]):
+            for secs in (0, 10, 15, 20, 30, 40):
+                for destructive in (True, False):
+                    since = datetime.datetime(2022, 1, 1, 0, 0, secs)
+                    cons = SearchConstraintSearchSince(
+                        current_date=since.strftime('%Y-%m-%d %H:%M:%S'),
+                        ts_matcher_cls=TS, days=0, hours=0)
+                    fd = NamedBytesIO(c)
+                    try:
+                        cons.apply_to_file(fd, destructive=destructive)
+                        pos = fd.tell()
+                    except Exception as exc:  # pylint: disable=broad-except
+                        pos = f'{type(exc).__name__}: {exc}'
+                    chk.coverage['evaluations'] += 1
+                    chk.dist('position_leading_bytes_runs')
+                    ok = isinstance(pos, int) and (
+                        pos == 0 or pos == len(c) or
+                        (0 < pos <= len(c) and c[pos - 1] == LF))
+                    if not ok:
+                        chk.violation('since-position-not-a-line-start', {
+                            'content': list(c), 'since': str(since),
+                            'position': pos, 'destructive': destructive,
+                            'source': 'leading-bytes'})
+
+
 # ------------------------------------------ lookups after other operations
 def history_runs(chk, n):
     """ the lookup must not depend on what the seeker did before: random
@@ -786,6 +833,17 @@ def run(chk):
                 W = rng.choice([1, 2, 3, 5])
                 src = 'small/file' if k == 0 else 'small/bytesio'
                 items.append((H, A, W, c, list(range(len(c) + 1)), src))
+    # deterministic: contents that begin with non-text bytes - a UTF-8 byte
+    # order mark, NUL, 0xFF, CR - alone, before a first line, before a line
+    # feed: the first line is delimited by the START OF THE FILE, whatever
+    # its first bytes are; every offset looked up (incl. 0..2)
+    for head in (b'\xef\xbb\xbf', b'\xef\xbb', b'\x00', b'\xff\xfe', b'\r'):
+        for tail in (b'', b'ab', b'ab\ncd', b'\nab\n',
+                     b'2022-01-01 00:00:00 x\ny\n'):
+            c = head + tail
+            for (H, A, W) in ((2, 8, 3), (3, 3, 5), (16, 8, 5), (H0, A0, W0)):
+                items.append((H, A, W, c, list(range(len(c) + 1)),
+                              'small/leading-bytes'))
     chk.dist('files_small', len(items))
     shapes |= run_stream(chk, 'small', items, window=True, toks=True)
     for it in items[:2]:
@@ -828,6 +886,7 @@ def run(chk):
                                              if b == LF]}})
 
     # the position a since constraint leaves the file at
+    leading_bytes_positions(chk)
     position_runs(chk, 200 if chk.quick else 2000)
     history_runs(chk, 60 if chk.quick else 600)
 
